@@ -106,14 +106,17 @@ fn any_w(cell_code: u8) -> Move {
 }
 
 macro_rules! gen_piece {
-    ($name:ident, $cval:expr, $white:expr, $piece:expr, $simple:expr, $capture:expr, $unwind:expr, $($call:tt)*) => {
+    ($name:ident, $cval:expr, $white:expr, $piece:expr, $simple:expr, $capture:expr, $maxk:expr, $($call:tt)*) => {
         harness! {
-            #[kani::unwind($unwind)]
+            #[kani::unwind(14)]
             #[kani::stub(crate::attack::rook, crate::verif_anyboard::stub_rook)]
             #[kani::stub(crate::attack::bishop, crate::verif_anyboard::stub_bishop)]
             fn $name() {
                 let b = ab::any_board_side(if $white { Color::White } else { Color::Black });
                 ab::assume_at_most_16(&b);
+                // loop bound of the generator's outer loop (per-loop unwinding, see registry):
+                // 16 = every valid position; smaller = bounded variant of the quick tier
+                vk::assume(b.pieces[rs::code($white, $piece) as usize].len() <= $maxk);
                 let w = any_w(rs::code($white, $piece));
                 let rw = rs::rmove(w);
                 let mut sink = WSink::new(w);
@@ -128,9 +131,9 @@ macro_rules! gen_piece {
     };
 }
 macro_rules! gen_exit {
-    ($name:ident, $cval:expr, $white:expr, $piece:expr, $unwind:expr, $pred:expr, $($call:tt)*) => {
+    ($name:ident, $cval:expr, $white:expr, $piece:expr, $maxk:expr, $pred:expr, $($call:tt)*) => {
         harness! {
-            #[kani::unwind($unwind)]
+            #[kani::unwind(17)]
             #[kani::stub(crate::attack::rook, crate::verif_anyboard::stub_rook)]
             #[kani::stub(crate::attack::bishop, crate::verif_anyboard::stub_bishop)]
             fn $name() {
@@ -138,6 +141,7 @@ macro_rules! gen_exit {
                 ab::assume_at_most_16(&b);
                 ab::assume_no_backrank_pawns(&b);
                 ab::assume_ep_consistent(&b);
+                vk::assume(b.pieces[rs::code($white, $piece) as usize].len() <= $maxk);
                 let w = any_w(rs::code($white, $piece));
                 let rw = rs::rmove(w);
                 let mut sink = RSink::new(w);
@@ -153,49 +157,65 @@ macro_rules! gen_exit {
 }
 use generic::{Black as GB, White as GW};
 // early exit (C07 (c)), for exactly the eight classes gen_for_has_legal_moves runs
-gen_exit!(exit_knight_w, GW, true, rs::KNIGHT, 17, |m| m.kind == rs::K_SIMPLE, gen_knight::<true, true>());
-gen_exit!(exit_knight_b, GB, false, rs::KNIGHT, 17, |m| m.kind == rs::K_SIMPLE, gen_knight::<true, true>());
-gen_exit!(exit_king_w, GW, true, rs::KING, 17, |m| m.kind == rs::K_SIMPLE, gen_king::<true, true>());
-gen_exit!(exit_king_b, GB, false, rs::KING, 17, |m| m.kind == rs::K_SIMPLE, gen_king::<true, true>());
-gen_exit!(exit_bishop_w, GW, true, rs::BISHOP, 17, |m| m.kind == rs::K_SIMPLE, do_gen_brq::<true, true, true, false>(Piece::Bishop));
-gen_exit!(exit_bishop_b, GB, false, rs::BISHOP, 17, |m| m.kind == rs::K_SIMPLE, do_gen_brq::<true, true, true, false>(Piece::Bishop));
-gen_exit!(exit_rook_w, GW, true, rs::ROOK, 17, |m| m.kind == rs::K_SIMPLE, do_gen_brq::<true, true, false, true>(Piece::Rook));
-gen_exit!(exit_rook_b, GB, false, rs::ROOK, 17, |m| m.kind == rs::K_SIMPLE, do_gen_brq::<true, true, false, true>(Piece::Rook));
-gen_exit!(exit_queen_w, GW, true, rs::QUEEN, 28, |m| m.kind == rs::K_SIMPLE, do_gen_brq::<true, true, true, true>(Piece::Queen));
-gen_exit!(exit_queen_b, GB, false, rs::QUEEN, 28, |m| m.kind == rs::K_SIMPLE, do_gen_brq::<true, true, true, true>(Piece::Queen));
-gen_exit!(exit_pawn_simple_w, GW, true, rs::PAWN, 17, |m| m.src % 8 == m.dst % 8 && m.kind != rs::K_EP, gen_pawn_simple::<true, true>());
-gen_exit!(exit_pawn_simple_b, GB, false, rs::PAWN, 17, |m| m.src % 8 == m.dst % 8 && m.kind != rs::K_EP, gen_pawn_simple::<true, true>());
-gen_exit!(exit_pawn_capture_w, GW, true, rs::PAWN, 17, |m| m.src % 8 != m.dst % 8 && (m.kind == rs::K_SIMPLE || rs::is_promo(m.kind)), gen_pawn_capture());
-gen_exit!(exit_pawn_capture_b, GB, false, rs::PAWN, 17, |m| m.src % 8 != m.dst % 8 && (m.kind == rs::K_SIMPLE || rs::is_promo(m.kind)), gen_pawn_capture());
-gen_exit!(exit_pawn_enpassant_w, GW, true, rs::PAWN, 17, |m| m.kind == rs::K_EP, gen_pawn_enpassant());
-gen_exit!(exit_pawn_enpassant_b, GB, false, rs::PAWN, 17, |m| m.kind == rs::K_EP, gen_pawn_enpassant());
+gen_exit!(exit_knight_w, GW, true, rs::KNIGHT, 16, |m| m.kind == rs::K_SIMPLE, gen_knight::<true, true>());
+gen_exit!(exit_knight_w_q, GW, true, rs::KNIGHT, 3, |m| m.kind == rs::K_SIMPLE, gen_knight::<true, true>());
+gen_exit!(exit_knight_b, GB, false, rs::KNIGHT, 16, |m| m.kind == rs::K_SIMPLE, gen_knight::<true, true>());
+gen_exit!(exit_knight_b_q, GB, false, rs::KNIGHT, 3, |m| m.kind == rs::K_SIMPLE, gen_knight::<true, true>());
+gen_exit!(exit_king_w, GW, true, rs::KING, 1, |m| m.kind == rs::K_SIMPLE, gen_king::<true, true>());
+gen_exit!(exit_king_b, GB, false, rs::KING, 1, |m| m.kind == rs::K_SIMPLE, gen_king::<true, true>());
+gen_exit!(exit_bishop_w, GW, true, rs::BISHOP, 16, |m| m.kind == rs::K_SIMPLE, do_gen_brq::<true, true, true, false>(Piece::Bishop));
+gen_exit!(exit_bishop_w_q, GW, true, rs::BISHOP, 3, |m| m.kind == rs::K_SIMPLE, do_gen_brq::<true, true, true, false>(Piece::Bishop));
+gen_exit!(exit_bishop_b, GB, false, rs::BISHOP, 16, |m| m.kind == rs::K_SIMPLE, do_gen_brq::<true, true, true, false>(Piece::Bishop));
+gen_exit!(exit_bishop_b_q, GB, false, rs::BISHOP, 3, |m| m.kind == rs::K_SIMPLE, do_gen_brq::<true, true, true, false>(Piece::Bishop));
+gen_exit!(exit_rook_w, GW, true, rs::ROOK, 16, |m| m.kind == rs::K_SIMPLE, do_gen_brq::<true, true, false, true>(Piece::Rook));
+gen_exit!(exit_rook_w_q, GW, true, rs::ROOK, 3, |m| m.kind == rs::K_SIMPLE, do_gen_brq::<true, true, false, true>(Piece::Rook));
+gen_exit!(exit_rook_b, GB, false, rs::ROOK, 16, |m| m.kind == rs::K_SIMPLE, do_gen_brq::<true, true, false, true>(Piece::Rook));
+gen_exit!(exit_rook_b_q, GB, false, rs::ROOK, 3, |m| m.kind == rs::K_SIMPLE, do_gen_brq::<true, true, false, true>(Piece::Rook));
+gen_exit!(exit_queen_w, GW, true, rs::QUEEN, 16, |m| m.kind == rs::K_SIMPLE, do_gen_brq::<true, true, true, true>(Piece::Queen));
+gen_exit!(exit_queen_w_q, GW, true, rs::QUEEN, 3, |m| m.kind == rs::K_SIMPLE, do_gen_brq::<true, true, true, true>(Piece::Queen));
+gen_exit!(exit_queen_b, GB, false, rs::QUEEN, 16, |m| m.kind == rs::K_SIMPLE, do_gen_brq::<true, true, true, true>(Piece::Queen));
+gen_exit!(exit_queen_b_q, GB, false, rs::QUEEN, 3, |m| m.kind == rs::K_SIMPLE, do_gen_brq::<true, true, true, true>(Piece::Queen));
+gen_exit!(exit_pawn_simple_w, GW, true, rs::PAWN, 16, |m| m.src % 8 == m.dst % 8 && m.kind != rs::K_EP, gen_pawn_simple::<true, true>());
+gen_exit!(exit_pawn_simple_b, GB, false, rs::PAWN, 16, |m| m.src % 8 == m.dst % 8 && m.kind != rs::K_EP, gen_pawn_simple::<true, true>());
+gen_exit!(exit_pawn_capture_w, GW, true, rs::PAWN, 16, |m| m.src % 8 != m.dst % 8 && (m.kind == rs::K_SIMPLE || rs::is_promo(m.kind)), gen_pawn_capture());
+gen_exit!(exit_pawn_capture_b, GB, false, rs::PAWN, 16, |m| m.src % 8 != m.dst % 8 && (m.kind == rs::K_SIMPLE || rs::is_promo(m.kind)), gen_pawn_capture());
+gen_exit!(exit_pawn_enpassant_w, GW, true, rs::PAWN, 16, |m| m.kind == rs::K_EP, gen_pawn_enpassant());
+gen_exit!(exit_pawn_enpassant_b, GB, false, rs::PAWN, 16, |m| m.kind == rs::K_EP, gen_pawn_enpassant());
 
 // all = (true, true); capture-only = (false, true); non-capture = (true, false); (false, false) is
 // what gen_simple_promote passes
-gen_piece!(gen_knight_tt_w, GW, true, rs::KNIGHT, true, true, 17, gen_knight::<true, true>());
-gen_piece!(gen_knight_tt_b, GB, false, rs::KNIGHT, true, true, 17, gen_knight::<true, true>());
-gen_piece!(gen_knight_tf_w, GW, true, rs::KNIGHT, true, false, 17, gen_knight::<true, false>());
-gen_piece!(gen_knight_tf_b, GB, false, rs::KNIGHT, true, false, 17, gen_knight::<true, false>());
-gen_piece!(gen_knight_ft_w, GW, true, rs::KNIGHT, false, true, 17, gen_knight::<false, true>());
-gen_piece!(gen_knight_ft_b, GB, false, rs::KNIGHT, false, true, 17, gen_knight::<false, true>());
-gen_piece!(gen_knight_ff_w, GW, true, rs::KNIGHT, false, false, 17, gen_knight::<false, false>());
-gen_piece!(gen_knight_ff_b, GB, false, rs::KNIGHT, false, false, 17, gen_knight::<false, false>());
-gen_piece!(gen_king_tt_w, GW, true, rs::KING, true, true, 17, gen_king::<true, true>());
-gen_piece!(gen_king_tt_b, GB, false, rs::KING, true, true, 17, gen_king::<true, true>());
-gen_piece!(gen_king_tf_w, GW, true, rs::KING, true, false, 17, gen_king::<true, false>());
-gen_piece!(gen_king_tf_b, GB, false, rs::KING, true, false, 17, gen_king::<true, false>());
-gen_piece!(gen_king_ft_w, GW, true, rs::KING, false, true, 17, gen_king::<false, true>());
-gen_piece!(gen_king_ft_b, GB, false, rs::KING, false, true, 17, gen_king::<false, true>());
-gen_piece!(gen_king_ff_w, GW, true, rs::KING, false, false, 17, gen_king::<false, false>());
-gen_piece!(gen_king_ff_b, GB, false, rs::KING, false, false, 17, gen_king::<false, false>());
+gen_piece!(gen_knight_tt_w, GW, true, rs::KNIGHT, true, true, 16, gen_knight::<true, true>());
+gen_piece!(gen_knight_tt_w_q, GW, true, rs::KNIGHT, true, true, 3, gen_knight::<true, true>());
+gen_piece!(gen_knight_tt_b, GB, false, rs::KNIGHT, true, true, 16, gen_knight::<true, true>());
+gen_piece!(gen_knight_tt_b_q, GB, false, rs::KNIGHT, true, true, 3, gen_knight::<true, true>());
+gen_piece!(gen_knight_tf_w, GW, true, rs::KNIGHT, true, false, 16, gen_knight::<true, false>());
+gen_piece!(gen_knight_tf_b, GB, false, rs::KNIGHT, true, false, 16, gen_knight::<true, false>());
+gen_piece!(gen_knight_ft_w, GW, true, rs::KNIGHT, false, true, 16, gen_knight::<false, true>());
+gen_piece!(gen_knight_ft_b, GB, false, rs::KNIGHT, false, true, 16, gen_knight::<false, true>());
+gen_piece!(gen_knight_ff_w, GW, true, rs::KNIGHT, false, false, 16, gen_knight::<false, false>());
+gen_piece!(gen_knight_ff_b, GB, false, rs::KNIGHT, false, false, 16, gen_knight::<false, false>());
+gen_piece!(gen_king_tt_w, GW, true, rs::KING, true, true, 1, gen_king::<true, true>());
+gen_piece!(gen_king_tt_b, GB, false, rs::KING, true, true, 1, gen_king::<true, true>());
+gen_piece!(gen_king_tf_w, GW, true, rs::KING, true, false, 1, gen_king::<true, false>());
+gen_piece!(gen_king_tf_b, GB, false, rs::KING, true, false, 1, gen_king::<true, false>());
+gen_piece!(gen_king_ft_w, GW, true, rs::KING, false, true, 1, gen_king::<false, true>());
+gen_piece!(gen_king_ft_b, GB, false, rs::KING, false, true, 1, gen_king::<false, true>());
+gen_piece!(gen_king_ff_w, GW, true, rs::KING, false, false, 1, gen_king::<false, false>());
+gen_piece!(gen_king_ff_b, GB, false, rs::KING, false, false, 1, gen_king::<false, false>());
 // sliders, one class per harness (the private per-class generator); the three-call wrapper gen_brq
 // is covered by the dispatcher obligation
-gen_piece!(gen_bishop_tt_w, GW, true, rs::BISHOP, true, true, 17, do_gen_brq::<true, true, true, false>(Piece::Bishop));
-gen_piece!(gen_bishop_tt_b, GB, false, rs::BISHOP, true, true, 17, do_gen_brq::<true, true, true, false>(Piece::Bishop));
-gen_piece!(gen_rook_tt_w, GW, true, rs::ROOK, true, true, 17, do_gen_brq::<true, true, false, true>(Piece::Rook));
-gen_piece!(gen_rook_tt_b, GB, false, rs::ROOK, true, true, 17, do_gen_brq::<true, true, false, true>(Piece::Rook));
-gen_piece!(gen_queen_tt_w, GW, true, rs::QUEEN, true, true, 28, do_gen_brq::<true, true, true, true>(Piece::Queen));
-gen_piece!(gen_queen_tt_b, GB, false, rs::QUEEN, true, true, 28, do_gen_brq::<true, true, true, true>(Piece::Queen));
+gen_piece!(gen_bishop_tt_w, GW, true, rs::BISHOP, true, true, 16, do_gen_brq::<true, true, true, false>(Piece::Bishop));
+gen_piece!(gen_bishop_tt_w_q, GW, true, rs::BISHOP, true, true, 3, do_gen_brq::<true, true, true, false>(Piece::Bishop));
+gen_piece!(gen_bishop_tt_b, GB, false, rs::BISHOP, true, true, 16, do_gen_brq::<true, true, true, false>(Piece::Bishop));
+gen_piece!(gen_bishop_tt_b_q, GB, false, rs::BISHOP, true, true, 3, do_gen_brq::<true, true, true, false>(Piece::Bishop));
+gen_piece!(gen_rook_tt_w, GW, true, rs::ROOK, true, true, 16, do_gen_brq::<true, true, false, true>(Piece::Rook));
+gen_piece!(gen_rook_tt_w_q, GW, true, rs::ROOK, true, true, 3, do_gen_brq::<true, true, false, true>(Piece::Rook));
+gen_piece!(gen_rook_tt_b, GB, false, rs::ROOK, true, true, 16, do_gen_brq::<true, true, false, true>(Piece::Rook));
+gen_piece!(gen_rook_tt_b_q, GB, false, rs::ROOK, true, true, 3, do_gen_brq::<true, true, false, true>(Piece::Rook));
+gen_piece!(gen_queen_tt_w, GW, true, rs::QUEEN, true, true, 16, do_gen_brq::<true, true, true, true>(Piece::Queen));
+gen_piece!(gen_queen_tt_w_q, GW, true, rs::QUEEN, true, true, 3, do_gen_brq::<true, true, true, true>(Piece::Queen));
+gen_piece!(gen_queen_tt_b, GB, false, rs::QUEEN, true, true, 16, do_gen_brq::<true, true, true, true>(Piece::Queen));
+gen_piece!(gen_queen_tt_b_q, GB, false, rs::QUEEN, true, true, 3, do_gen_brq::<true, true, true, true>(Piece::Queen));
 
 harness! {
     fn gen_allowed_mask_flags() {
@@ -353,3 +373,35 @@ macro_rules! san_pawn_cand {
 }
 san_pawn_cand!(c09_san_pawn_candidates_w, GW, true);
 san_pawn_cand!(c09_san_pawn_candidates_b, GB, false);
+
+// C01 item 4, bounded stand-in for the glue the contracts above do not reach (the macro-generated
+// public generators: side dispatch, UnsafeMoveList, ArrayVec::retain with the legality checker):
+// the five public legal generators end to end on every valid position with at most two men a side.
+harness! {
+    #[kani::unwind(38)]
+    #[kani::stub(crate::attack::rook, crate::verif_anyboard::stub_rook)]
+    #[kani::stub(crate::attack::bishop, crate::verif_anyboard::stub_bishop)]
+    fn c01_legal_generators_end_to_end_small_boards() {
+        let b = ab::any_board();
+        ab::assume_valid(&b);
+        vk::assume(b.white.len() <= 2 && b.black.len() <= 2);
+        let white = b.r.side == Color::White;
+        let c = vk::any_u8(); vk::assume(1 <= c && c <= 12);
+        let w = any_w(c);
+        let rw = rs::rmove(w);
+        let g = vk::any_u8(); vk::assume(g < 5);
+        let list = match g { 0 => legal::gen_all(&b), 1 => legal::gen_capture(&b), 2 => legal::gen_simple(&b),
+                             3 => legal::gen_simple_no_promote(&b), _ => legal::gen_simple_promote(&b) };
+        let mut hits = 0u32; let mut i = 0;
+        while i < list.len() { if list[i] == w { hits += 1; } i += 1; }
+        let occupied = rs::ci(b.r.cells[rw.dst as usize]) != 0 || rw.kind == rs::K_EP;
+        let promo = rs::is_promo(rw.kind);
+        let in_class = match g { 0 => true, 1 => occupied, 2 => !occupied, 3 => !occupied && !promo, _ => !occupied && promo };
+        let want = rs::ref_legal(&b.r, rw) && in_class;
+        assert!(hits == if want { 1 } else { 0 });
+        assert!(has_legal_moves(&b) == b.has_legal_moves());
+        let _ = white;
+        cover!(want && g == 4);
+        cover!(want && g == 1 && rw.kind == rs::K_EP);
+    }
+}
